@@ -667,3 +667,68 @@ package mcp
 //@   before call Handle#1 assert[C19 nothing-is-sent-after-a-before-request-error] isnil(beforeerr(httpReq))
 //@ type streamableHTTPClientTransport
 //@   invariant[C19 an-issued-session-id-is-never-dropped-by-switching-to-stateless] self.sessionID != "" ==> !self.isStateless
+
+// ---------------------------------------------------------------------------
+// C13 — request-scoped context.  derives(c, base): c was built from base by at
+// most four WithValue/WithCancel steps (the module never nests deeper).
+
+//@ pred derives(c context.Context, base context.Context) = c == base || ctxparent(c) == base || ctxparent(ctxparent(c)) == base || ctxparent(ctxparent(ctxparent(c))) == base || ctxparent(ctxparent(ctxparent(ctxparent(c)))) == base
+//@
+//@ callspec HTTPContextFunc
+//@   function
+//@
+//@ fun ctxfold(fs []HTTPContextFunc, base context.Context, r *http.Request, k int) context.Context = k <= 0 ? base : HTTPContextFunc(fs[k - 1], ctxfold(fs, base, r, k - 1), r)
+//@
+//@ ghost stable newsessions int
+//@ func newSession
+//@   counted newsessions
+//@   modifies *, newsessions
+//@   ensures !isnil(result)
+//@
+//@ func httpServerHandler.handlePost
+//@   loop 1 invariant[C13 context-functions-applied-in-registration-order-each-once] 0 - 1 <= rangeindex && rangeindex < len(h.httpContextFuncs) && enrichedCtx == ctxfold(h.httpContextFuncs, ctx, r, rangeindex + 1)
+//@   before call handlePostRequest#1 assert[C13 request-sees-the-context-derived-from-this-http-request] arg1 == old(ctxfold(h.httpContextFuncs, ctx, r, len(h.httpContextFuncs)))
+//@   before call handlePostNotification#1 assert[C13 notification-sees-the-context-derived-from-this-http-request] arg1 == old(ctxfold(h.httpContextFuncs, ctx, r, len(h.httpContextFuncs)))
+//@   before call handlePostResponse#1 assert[C13 answer-sees-the-context-derived-from-this-http-request] arg1 == old(ctxfold(h.httpContextFuncs, ctx, r, len(h.httpContextFuncs)))
+//@   before call handlePostRequest#1 assert[C13 stateless-requests-get-a-session-of-their-own] h.isStateless ==> newsessions == old(newsessions) + 1
+//@
+//@ func httpServerHandler.handlePostRequest
+//@   before call handleRequest#1 assert[C13 handler-context-extends-this-requests-context] derives(arg1, ctx)
+//@   before call handleRequest#1 assert[C13 handler-context-carries-this-requests-session] !isnil(session) ==> ctxval(arg1, box(sessionContextKey)) == asany(session)
+//@   before call handleRequest#2 assert[C13 handler-context-extends-this-requests-context] derives(arg1, ctx)
+//@   before call handleRequest#2 assert[C13 handler-context-carries-this-requests-session] !isnil(session) ==> ctxval(arg1, box(sessionContextKey)) == asany(session)
+//@ func httpServerHandler.handlePostNotification
+//@   before call handleNotification#1 assert[C13 handler-context-extends-this-requests-context] derives(arg1, ctx)
+//@   before call handleNotification#1 assert[C13 handler-context-carries-this-requests-session] !isnil(session) ==> ctxval(arg1, box(sessionContextKey)) == asany(session)
+//@
+//@ func toolManager.handleListTools
+//@   before call toolListFilter#1 assert[C13 list-filter-is-evaluated-with-this-requests-context] arg0 == ctx
+//@   before call toolListFilter#1 assert[C13 list-filter-gets-a-slice-of-its-own] isfresh(arg1)
+//@ func toolManager.getTools
+//@   loop 1 invariant[C13] isfresh(tools)
+//@   ensures[C13 every-list-request-gets-a-slice-of-its-own] isfresh(result)
+//@ func toolManager.handleCallTool
+//@   before call Handler#1 assert[C13 tool-handler-context-extends-this-requests-context] derives(arg0, old(ctx))
+//@   before call Handler#1 assert[C13 tool-handler-context-carries-this-requests-session] ctxval(arg0, box(clientSessionKey)) == asany(session)
+//@
+//@ type mcpHandler
+//@   init newMCPHandler, withServer, withToolManager, withLifecycleManager, withResourceManager, withPromptManager, use
+//@   final[C13] toolManager, lifecycleManager, resourceManager, promptManager, server, middlewares
+//@ type toolManager
+//@   init newToolManager, withServerProvider, withToolListFilter, withMethodNameModifier
+//@   final[C13] serverProvider, toolListFilter, methodNameModifier
+//@ type promptManager
+//@   init newPromptManager, withPromptListFilter
+//@   final[C13] promptListFilter
+//@ type resourceManager
+//@   init newResourceManager, withResourceListFilter
+//@   final[C13] resourceListFilter
+
+//@ func serverProvider.withContext
+//@   pure
+//@   ensures !isnil(result) && ctxparent(result) == ctx
+//@   ensures forall k interface{} :: k != box(serverContextKey) ==> ctxval(result, k) == ctxval(ctx, k)
+//@ func Server.withContext
+//@   pure
+//@   ensures[C13] !isnil(result) && ctxparent(result) == ctx
+//@   ensures[C13] forall k interface{} :: k != box(serverContextKey) ==> ctxval(result, k) == ctxval(ctx, k)
